@@ -65,34 +65,95 @@ def parse_row(cons, fld):
     return (who, kind, colour, sq), left
 
 
+CORNERS = {(0, 0): "white_queenside", (0, 7): "white_kingside", (7, 0): "black_queenside", (7, 7): "black_kingside"}
+CORNER_COLOUR = {(0, 0): "White", (0, 7): "White", (7, 0): "Black", (7, 7): "Black"}
+
+
+def expected_revocations(mk, mc, ms, cap, cd):
+    """FIDE: the rights lost by this move (if they are still there)."""
+    out = set()
+    if mk == "King":
+        out |= {"%s_kingside" % mc.lower(), "%s_queenside" % mc.lower()}
+    if mk == "Rook" and ms in CORNERS and CORNER_COLOUR[ms] == mc:
+        out.add(CORNERS[ms])
+    if cap is not None and cap[0] == "Rook" and cd in CORNERS and CORNER_COLOUR[cd] == cap[1]:
+        out.add(CORNERS[cd])
+    return out
+
+
+def revocation_cases(ix, b):
+    """What make_move_castling_checks sets to Unavailable for each (mover, start, captured, dest), read off by per-case
+    constant propagation: {case: (set of right fields, anything else stored into the rights, undecided?)}."""
+    from . import cases
+
+    def sq(r, f):
+        return ("agg", "board::square::Square", "Square", (("const", r, "u8"), ("const", f, "u8")), ("rank", "file"))
+
+    def kind(k, c):
+        return cases.enum_val(ix, "board::piece::Kind", k, [cases.enum_val(ix, "board::piece::Color", c)])
+    squares = [(0, 0), (0, 7), (7, 0), (7, 7), (3, 3)]
+    caps = [None, ("Rook", "White"), ("Rook", "Black"), ("Queen", "White"), ("Knight", "Black")]
+    out = {}
+    for mk in ("King", "Rook", "Queen", "Bishop", "Knight", "Pawn"):
+        for mc in ("White", "Black"):
+            for ms in squares:
+                for cap in caps:
+                    for cd in (squares if cap is not None else [(4, 4)]):
+                        inp = {"*new_move.piece": kind(mk, mc), "*new_move.start": sq(*ms), "*new_move.dest": sq(*cd),
+                               "*new_move.is_castles": ("const", 0, "bool"),
+                               "*new_move.captured_piece": cases.option("Some", [kind(*cap)]) if cap else cases.option("None")}
+                        run = cases.run(ix, b, inp)
+                        fields, other = set(), set()
+                        for p in run.paths:
+                            for e in p.events:
+                                if e[0] == "store" and "castling_rights." in e[2]:
+                                    f = e[2].split("castling_rights.")[-1]
+                                    if e[3][0] == "agg" and e[3][2] == "Unavailable":
+                                        fields.add(f)
+                                    else:
+                                        other.add((f, expr_str(e[3])[:30]))
+                        undecided = run.overflow or any(p.end not in ("return", "panic", "unreachable") for p in run.paths)
+                        out[(mk, mc, ms, cap, cd)] = (fields, other, undecided)
+    return out
+
+
 def rule_revocation_table(ctx):
-    """The relation {(mover|captured, kind, colour, square) -> revoked right} extracted from the decision
-    tree of make_move_castling_checks equals the FIDE table: exactly these rows, no others."""
+    """The relation {(mover, start, captured, dest) -> rights revoked} of make_move_castling_checks equals the FIDE table,
+    case by case (960 cases: 6 kinds x 2 colours x 5 start squares x {no capture, 4 victims x 5 squares}), however the
+    decision is spelt: a match with twelve arms, a helper per right, a lookup table of (piece, square) -> right."""
     ix = ctx.ix
     b = ctx.body(CASTLE_CHECKS)
-    sym = ctx.sym(b)
-    got = {}
-    n = 0
-    for bi, i, s in b.stmts():
-        fp = fields_of(s["lhs"])
-        if len(fp) >= 2 and fp[-2] == "castling_rights":
-            n += 1
-            cons = C.constraints_for(ix, b, sym, bi)
-            key, left = parse_row(cons, fp[-1])
-            if left:
-                ctx.bad("row:%s:unrecognised-constraint" % fp[-1], "the revocation of %s depends on constraint(s) the table does not model: %s (cannot decide)" % (fp[-1], left), b.where(bi))
-            got.setdefault(key, set()).add(fp[-1])
-    for key in sorted(set(ORACLE) | set(got), key=str):
-        want = ORACLE.get(key, set())
-        have = got.get(key, set())
+    table = revocation_cases(ix, b)
+    und = [k for k, v in table.items() if v[2]]
+    ctx.check(not und, "revocation-cases-decided", "all %d cases of make_move_castling_checks were walked to the end" % len(table), b.where(0),
+              bad_what="%d case(s) of make_move_castling_checks could not be walked (a loop over data, or too many paths), e.g. %s: cannot decide" % (len(und), und[:2]))
+    missing, extra, other = {}, {}, []
+    for (mk, mc, ms, cap, cd), (fields, oth, _u) in table.items():
+        want = expected_revocations(mk, mc, ms, cap, cd)
+        for f in want - fields:
+            # attribute the missing right to the oracle row responsible for it
+            if mk == "King" and f.startswith(mc.lower()):
+                row = ("mover", "King", mc, None)
+            elif mk == "Rook" and ms in CORNERS and CORNERS[ms] == f and CORNER_COLOUR[ms] == mc:
+                row = ("mover", "Rook", mc, ms)
+            else:
+                row = ("captured", "Rook", cap[1], cd)
+            missing.setdefault(row, []).append((mk, mc, ms, cap, cd))
+        for f in fields - want:
+            extra.setdefault(f, []).append((mk, mc, ms, cap, cd))
+        if oth:
+            other.append(((mk, mc, ms, cap, cd), sorted(oth)))
+    for key in sorted(ORACLE, key=str):
         label = "%s:%s:%s:%s" % (key[0], key[1], key[2], "any" if key[3] is None else "r%sf%s" % key[3])
-        if want == have:
-            ctx.ok("row:" + label, "%s %s %s on %s loses %s" % (key[0], key[2], key[1], "any square" if key[3] is None else "rank %s file %s" % key[3], sorted(have)), b.where(0))
-        elif not have:
-            ctx.bad("row:" + label, "missing revocation: when the %s is a %s %s on %s the right(s) %s must be lost, but no path of make_move_castling_checks does that" % (key[0], key[2], key[1], key[3], sorted(want)), b.where(0))
-        else:
-            ctx.bad("row:" + label, "wrong revocation for %s %s %s at %s: revokes %s, FIDE says %s" % (key[0], key[2], key[1], key[3], sorted(have), sorted(want)), b.where(0))
-    ctx.floor("revocation sites", n, 12)
+        bad = missing.get(key, [])
+        ctx.check(not bad, "row:" + label, "%s %s %s on %s loses %s in every case" % (key[0], key[2], key[1], "any square" if key[3] is None else "rank %s file %s" % key[3], sorted(ORACLE[key])), b.where(0),
+                  bad_what="missing revocation: when the %s is a %s %s on %s the right(s) %s must be lost, but they are kept in %d case(s), e.g. (mover, colour, from, captured, on) = %s"
+                  % (key[0], key[2], key[1], key[3], sorted(ORACLE[key]), len(bad), bad[:2]))
+    ctx.check(not extra, "no-other-revocation", "no right is revoked in any other case", b.where(0),
+              bad_what="rights revoked without cause: %s" % {f: v[:2] for f, v in extra.items()})
+    ctx.check(not other, "rights-only-set-unavailable-here", "make_move_castling_checks only ever stores Unavailable into the rights", b.where(0),
+              bad_what="make_move_castling_checks stores something else into the rights: %s" % other[:2])
+    ctx.floor("revocation cases", len(table), 900)
 
 
 def rule_rights_monotone(ctx):
@@ -134,7 +195,7 @@ def rule_rights_monotone(ctx):
         ok = mir.strip_refs(a) == ("arg", mk.local_name(2)) and mk.dominates(cc[0][0], pushes[0][0]) and whole and mk.dominates(whole[0][0], cc[0][0])
     ctx.check(ok, "make_move:revocations-on-pushed-record", "rights are copied, then revoked on `new_move`, then `new_move` is pushed", mk.where(cc[0][0] if cc else 0),
               bad_what="the castling checks do not run on the record that is pushed, or not between the copy and the push")
-    ctx.floor("castling-right assignments on the make_move path", n, 12)
+    ctx.floor("castling-right assignments on the make_move path", n, 1)
 
 
 def rule_clock(ctx):
